@@ -127,3 +127,10 @@ Theorem builder_flags : forall src tgt,
   declared_ro (with_tmpfs tgt) = false /\ has (d_flags (with_tmpfs tgt)) MS_NOSUID = true /\
   declared_ro (with_proc tgt false) = true /\ declared_ro (with_proc tgt true) = false.
 Proof. intros. repeat split; reflexivity. Qed.
+
+(** masks are in place for everything that exists, provided the container has /dev/null ... *)
+Theorem masks_applied : forall k, mask_one true k <> MExposed.
+Proof. destruct k as [[|]|]; simpl; discriminate. Qed.
+(** ... and every one of them is skipped when it has not (known finding) *)
+Theorem masks_skipped_without_dev_null : forall k, mask_one false (Some k) = MExposed.
+Proof. destruct k; reflexivity. Qed.
